@@ -385,6 +385,26 @@ func genBidiagToeplitz(r, c int) M {
 	return m
 }
 
+// genDqdsFlip is the nearly diagonal upper bidiagonal matrix with diagonal
+// 3, 1e-3, 1.02, 1, 1.01, ..., 2 and off-diagonal 0.05, 0.04, ...: its values-only
+// SVD makes dqds reverse an unreduced block inside the main loop.
+func genDqdsFlip(r, c int) M {
+	m := newM(r, c)
+	k := min(r, c)
+	for i := 0; i < k; i++ {
+		m.set(i, i, 1+0.01*float64(i%3))
+		if i+1 < c {
+			m.set(i, i+1, 0.05-0.01*float64(i%2))
+		}
+	}
+	if k >= 3 {
+		m.set(0, 0, 3)
+		m.set(k-1, k-1, 2)
+		m.set(1, 1, 1e-3)
+	}
+	return m
+}
+
 var genFamilies = []family{
 	{name: "int", gen: genInt, scale: 1},
 	{name: "graded", gen: genGraded, scale: 1},
@@ -399,6 +419,7 @@ var genFamilies = []family{
 	{name: "diagneglast", gen: genDiagNegLast, scale: 1},
 	{name: "bidiagzeros", gen: genBidiagZeros, scale: 1},
 	{name: "bitoep", gen: genBidiagToeplitz, scale: 1},
+	{name: "dqdsflip", gen: genDqdsFlip, scale: 1},
 	{name: "big", gen: genInt, scale: bigScale},
 	{name: "small", gen: genInt, scale: smallScale},
 }
